@@ -506,6 +506,9 @@ pub (crate) fn bid128_from_string(str: &str, rnd_mode: RoundingMode, pfpsf: &mut
         if ndigits_total == 0 {
             CX.w[0] = 0;
             CX.w[1] = 0;
+            if dec_expon < 0 {
+                dec_expon = 0;
+            }
         } else if ndigits_total <= 19 {
             coeff_high = ((buffer[0] as i32) - ('0' as i32)) as BID_UINT64;
             for c in &buffer[1..ndigits_total] {
